@@ -17,7 +17,10 @@ def execute(binp, cases, sd, name, timeout=900, extra_args=()):
     cp = os.path.join(sd, name + ".cases.ndjson")
     tp = os.path.join(sd, name + ".trace.ndjson")
     vlib.write_ndjson(cp, cases)
-    vlib.run([binp, cp, tp] + list(extra_args), timeout=timeout)
+    if isinstance(binp, (list, tuple)):
+        vlib.run(list(binp) + [cp, tp] + list(extra_args), timeout=timeout)
+    else:
+        vlib.run([binp, cp, tp] + list(extra_args), timeout=timeout)
     if not os.path.exists(tp + ".ok"):
         raise vlib.FrameworkError("harness did not finish: " + name)
     return tp
